@@ -451,6 +451,30 @@ def _judge_builders(ctx, rng, j):
                       'is not a valid signature over the flag-selected '
                       'message', base)
     expect('locks_pub:decrypted-sig-unlocks', [isa.push(sigf), s2], True)
+    # recovering the scalar from signature and adapter: the signature in the
+    # form the lock takes it (with its flag byte) is either refused or gives
+    # the same scalar as the bare 64 bytes - never another one
+    ctx.evaluated()
+    y0 = le(0)
+    try:
+        r64 = t_.release_left_amhl_lock(wit, sig, y0)
+    except BaseException as e:
+        r64 = None
+        ctx.violation('release-raised', f'release_left_amhl_lock raised for '
+                      f'a 64-byte signature: {e!r}'[:160],
+                      dict(base, name='release'))
+    if r64 is not None and f:
+        try:
+            r65 = t_.release_left_amhl_lock(wit, sigf, y0)
+        except BaseException:
+            ctx.count('flagged_signature_refused_by_release')
+        else:
+            if r65 != r64:
+                ctx.violation('recovered-scalar-differs-for-flagged-signature',
+                              'release_left_amhl_lock returns another scalar '
+                              'for the signature with its flag byte appended '
+                              'than for the bare signature', dict(
+                                  base, name='release'), r64.hex(), r65.hex())
     wrong = t_.decrypt_adapter(wit, functions.clamp_scalar(rbytes(rng, 32)))
     expect('locks_pub:wrong-tweak-sig', [isa.push(wrong + (bytes([f]) if f
                                                            else b'')), s2],
